@@ -59,8 +59,12 @@ fn sprinkle(n: &mut ANode, src: &mut Src, depth: usize) {
             let v = ["preserve", "default", "other", ""][src.weighted(&[4, 3, 1, 1])];
             e.attrs.push((QName::new(XML_NS, "space"), v.to_string()));
         }
-        // make sure whitespace-only text is frequent
-        if src.ratio(1, 3) {
+        // make sure whitespace-only text is frequent, next to other text too
+        if src.ratio(1, 4) {
+            let at = src.choice(e.children.len() + 1);
+            e.children.insert(at, ANode::Text([" ", "\n", "x", " y "][src.choice(4)].to_string()));
+        }
+        if src.ratio(1, 2) {
             let ws = [" ", "\n  ", "\t", "\r\n", "", "\u{a0}", "\u{2003}", " \u{85}", "\u{2028}"][src.weighted(&[5, 4, 2, 2, 1, 2, 1, 1, 1])];
             let at = src.choice(e.children.len() + 1);
             e.children.insert(at, ANode::Text(ws.to_string()));
